@@ -146,7 +146,11 @@ func ParseSliceHeader(nalu []byte, spsMap map[uint32]*SPS, ppsMap map[uint32]*PP
 			PicHeightInCtbsY = Ceil( pic_height_in_luma_samples ÷ CtbSizeY )
 			PicSizeInCtbsY = PicWidthInCtbsY * PicHeightInCtbsY
 		*/
-		CtbSizeY := uint(1 << (sps.Log2MinLumaCodingBlockSizeMinus3 + 3 + sps.Log2DiffMaxMinLumaCodingBlockSize))
+		CtbLog2SizeY := uint(sps.Log2MinLumaCodingBlockSizeMinus3) + 3 + uint(sps.Log2DiffMaxMinLumaCodingBlockSize)
+		if CtbLog2SizeY > 6 {
+			return nil, fmt.Errorf("sps CtbLog2SizeY %d is larger than 6", CtbLog2SizeY)
+		}
+		CtbSizeY := uint(1) << CtbLog2SizeY
 		PicSizeInCtbsY := ceilDiv(uint(sps.PicWidthInLumaSamples), CtbSizeY) *
 			ceilDiv(uint(sps.PicHeightInLumaSamples), CtbSizeY)
 		sh.SegmentAddress = r.Read(bits.CeilLog2(PicSizeInCtbsY))
